@@ -19,6 +19,15 @@ CLAIMED = {
              "generated convex sets in 3 vertex orders; qhull certified per instance (closed chain, supporting planes).",
         design="§4 C01", technique="Coq proof (closed-chain cancellation, field identities, Paramcoq transfer) + model/implementation correspondence on exact rationals",
         note="qhull is a certified oracle; divergence theorem (cone sums = Lebesgue integrals) taken as definition; face areas use one float sqrt per triangle."),
+    "C02": dict(
+        text="Theorems (every closed oriented chain): Eberly's centroid accumulators are 6V and 24 x first moment, so the centroid is exact; "
+             "Kallay's /20 rule with signed volumes is the exact second moment and, shifted by the parallel-axis theorem about the centroid, the exact "
+             "origin tensor; with |det| (code as found) exact only for star-shaped solids (partial) and refuted by a computed witness. "
+             "Tie: executable model run on polytri's own triangulation and on the model's fan triangulation (must agree), per-face (-d)A terms, "
+             "independent box-sum oracle for voxel solids.",
+        design="§4 C02", technique="Coq proof (flux/cone identities, closed-chain cancellation, refutation witness by vm_compute) + model/implementation correspondence",
+        note="polytri is an oracle (triangles mapped to indices, count and closedness checked); face planarity/convexity/orientation are the documented precondition; "
+             "known finding polytri-absolute-thresholds (valid small meshes raise)."),
 }
 
 REASON_TODO = "check not built yet (work in progress this round)"
